@@ -131,6 +131,22 @@ def run(ctx):
             else:
                 R.ok(1)
     R.count("range_loops_in_request_reachable_code", n_loops)
+    # LOOP-PROGRESS: loops no iterator drives
+    n_hand = 0
+    for fid in sorted(reach):
+        fn = F.fns[fid]
+        if not fn.blocks:
+            continue
+        for i, (h, body, backs) in enumerate(L.hand_written_loops(fn)):
+            n_hand += 1
+            ok, desc, cyc = L.loop_progress(fn, h, body)
+            lines = sorted({fn.blocks[b]["term"].get("loc", {}).get("l") for b in cyc if fn.blocks[b]["term"].get("loc")})
+            R.ob(ok, "LOOP-PROGRESS", "%s:%s" % (fn.loc["f"], fn.blocks[h]["term"].get("loc", {}).get("l")), "LOOP-PROGRESS|%s|#%d" % (fn.name, i),
+                 "a `loop`/`while` that no iterator drives can go round without progress: there is a cycle through its head (lines %s) that neither steps a "
+                 "counter its exit test depends on nor shrinks a collection it depends on (progress found elsewhere in the loop: %s): the request never returns"
+                 % (lines[:8], desc or "none"),
+                 sample={"rule": "LOOP-PROGRESS", "fn": fn.name[-60:], "progress": desc})
+    R.floor("hand_written_loops_in_request_reachable_code", n_hand, 4)
     return R
 
 
